@@ -74,6 +74,53 @@ def attr_class(ck, l, base, names, fwd):
     return sel, forwarded, name
 
 
+def merged_items(ck, l, at, spec):
+    """the selected attributes of the vector `at` merged into one item list.
+    returns (items, per-attribute errors, forwarded attribute origins, shape) or None if the leaf leaves a needed part open"""
+    m = l.decisions.get(at + "#len", 0)
+    items = []
+    errs = []
+    fwd_expected = []
+    undecided = False
+    shape = []
+    for j in range(m):
+        base = "%s[%d]" % (at, j)
+        sel, forwarded, name = attr_class(ck, l, base, spec["names"], spec["fwd"])
+        if forwarded:
+            fwd_expected.append(base)
+        if sel is None:
+            shape.append(("other", name, base))
+            continue
+        form = l.decisions.get(base + ".meta#d")
+        if form is None:
+            undecided = True
+            break
+        if form == 0:
+            shape.append(("bare", sel, base))
+            continue
+        if form == 2:
+            errs.append(E("custom", None, span=("node", base + ".meta.NameValue.0")))   # "Name-value arguments are not supported. Use #[name(...)]"
+            shape.append(("nv", sel, base))
+            continue
+        pd = l.decisions.get(base + ".meta.List.0.tokens.parsed#d")
+        if pd is None:
+            undecided = True
+            break
+        if pd == 1:
+            errs.append(E("syn", base + ".meta.List.0.tokens.parsed.Err.0", own_span=("in", base + ".meta.List.0.tokens.parsed.Err.0.span")))
+            shape.append(("badlist", sel, base))
+            continue
+        sub = list_items(l, base + ".meta.List.0.tokens.parsed.Ok.0")
+        if sub is None:
+            undecided = True
+            break
+        items.extend(sub)
+        shape.append(("list", sel, base))
+    if undecided:
+        return None
+    return items, errs, fwd_expected, shape
+
+
 def job(ck, prog, natbin, rn, M, K, colon, quick):
     spec = SPECS[rn]
     r = spec["r"]
@@ -91,48 +138,11 @@ def job(ck, prog, natbin, rn, M, K, colon, quick):
             ck.obligations += 1
             ck.engine("%s: leaf %s %s" % (rn, l.status, l.info or l.panics))
             continue
-        m = l.decisions.get(at + "#len", 0)
-        items = []
-        errs = []
-        fwd_expected = []
-        undecided = False
-        shape = []
-        for j in range(m):
-            base = "%s[%d]" % (at, j)
-            sel, forwarded, name = attr_class(ck, l, base, spec["names"], spec["fwd"])
-            if forwarded:
-                fwd_expected.append(base)
-            if sel is None:
-                shape.append(("other", name, base))
-                continue
-            form = l.decisions.get(base + ".meta#d")
-            if form is None:
-                undecided = True
-                break
-            if form == 0:
-                shape.append(("bare", sel, base))
-                continue
-            if form == 2:
-                errs.append(E("custom", None, span=("node", base + ".meta.NameValue.0")))   # "Name-value arguments are not supported. Use #[name(...)]"
-                shape.append(("nv", sel, base))
-                continue
-            pd = l.decisions.get(base + ".meta.List.0.tokens.parsed#d")
-            if pd is None:
-                undecided = True
-                break
-            if pd == 1:
-                errs.append(E("syn", base + ".meta.List.0.tokens.parsed.Err.0", own_span=("in", base + ".meta.List.0.tokens.parsed.Err.0.span")))
-                shape.append(("badlist", sel, base))
-                continue
-            sub = list_items(l, base + ".meta.List.0.tokens.parsed.Ok.0")
-            if sub is None:
-                undecided = True
-                break
-            items.extend(sub)
-            shape.append(("list", sel, base))
-        if undecided:
+        mi = merged_items(ck, l, at, spec)
+        if mi is None:
             ck.engine("%s: leaf leaves a selected attribute's form open (%r)" % (rn, l.decisions))
             continue
+        items, errs, fwd_expected, shape = mi
         orc = Oracle(ck, l)
         kind, val = orc.expect_struct(r, items)
         if kind in ("none", "unsupported") or orc.undetermined:
